@@ -203,6 +203,18 @@ def main(tier, seed, replay=None):
             if not okc:
                 res.violation(dict(request='worker in a live context', cut='never opens the control connection'),
                               f'after a client of context 992 never opened its control connection no further worker can be started in that context ({last})')
+        # a complete worker-in-context request whose client resets the connection at once (the worker is rebuilt in the context's
+        # helper process while its data connection is already gone): concerns that client only
+        if go:
+            for end_ in ('rst', 'fin'):
+                st.raw_session(addr, b''.join(streams['worker_in_live_ctx']), end=end_)
+                res.count('how:PVanishAtOnce'); res.case(('worker_in_live_ctx', 'vanishes-at-once', end_), nontrivial=True)
+                time.sleep(0.3)
+                r = bounded(fresh_ctx_worker, 25) if 'fresh_ctx_worker' in dir() else ('skip',)
+                if r != ('ok', 27) and r != ('skip',):
+                    res.violation(dict(request='worker in a live context', cut=f'complete request, then the client vanishes at once ({end_})'),
+                                  f'after a client of context 992 sent its request and vanished at once no further worker can be started in that context ({r})')
+                    break
         # the healthy client's worker inside the context is undisturbed by all the faulty worker-in-context requests
         def ask_ctx_worker():
             hctx_worker.enqueue(3)
